@@ -26,6 +26,39 @@ Fixpoint map2 {A B C} (f : A -> B -> C) (l1 : list A) (l2 : list B) : list C :=
 Definition mirror_fill {A} (n : nat) (lo hi : list A) : list A :=
   firstn (n - length hi) lo ++ rev hi.
 
+(* numpy's pairwise summation (numpy/_core/src/umath/loops_utils.h.src), generic in the addition: n < 8 plain
+   loop; n <= 128 eight accumulators combined as ((r0+r1)+(r2+r3))+((r4+r5)+(r6+r7)) and a plain tail;
+   otherwise split at n/2 rounded down to a multiple of 8.  Instantiated with PrimFloat.add below (module F)
+   and with Rplus in SumProofs.v, where it is proved to be the exact sum. *)
+Section PairwiseG.
+  Context {A : Type} (add : A -> A -> A) (zero : A).
+  Fixpoint pw_block_g (r0 r1 r2 r3 r4 r5 r6 r7 : A) (l : list A) : A :=
+    match l with
+    | a0 :: a1 :: a2 :: a3 :: a4 :: a5 :: a6 :: a7 :: t =>
+      pw_block_g (add r0 a0) (add r1 a1) (add r2 a2) (add r3 a3) (add r4 a4) (add r5 a5) (add r6 a6) (add r7 a7) t
+    | _ => fold_left add l (add (add (add r0 r1) (add r2 r3)) (add (add r4 r5) (add r6 r7)))
+    end.
+  Fixpoint pairwise_g (fuel : nat) (l : list A) : option A :=
+    let n := length l in
+    if (n <? 8)%nat then Some (fold_left add l zero)
+    else if (n <=? 128)%nat then
+      match l with
+      | a0 :: a1 :: a2 :: a3 :: a4 :: a5 :: a6 :: a7 :: t => Some (pw_block_g a0 a1 a2 a3 a4 a5 a6 a7 t)
+      | _ => None
+      end
+    else
+      match fuel with
+      | O => None
+      | S f =>
+        let h := (n / 2)%nat in
+        let n2 := (h - h mod 8)%nat in
+        match pairwise_g f (firstn n2 l), pairwise_g f (skipn n2 l) with
+        | Some a, Some b => Some (add a b)
+        | _, _ => None
+        end
+      end.
+End PairwiseG.
+
 (* ============================================================== (F) PrimFloat models *)
 Module F.
 Local Open Scope float_scope.
@@ -193,32 +226,9 @@ Definition gauleg_orig := gauleg_gen true.    (* unchanged code (while)   *)
    (numpy/_core/src/umath/loops_utils.h.src: n < 8 plain loop; n <= 128 eight accumulators;
    otherwise split at n/2 rounded down to a multiple of 8).  Modelled, not verified: tied to
    numpy by the bit-exact correspondence of the integrators. *)
-Fixpoint pw_block (r0 r1 r2 r3 r4 r5 r6 r7 : float) (l : list float) : float :=
-  match l with
-  | a0 :: a1 :: a2 :: a3 :: a4 :: a5 :: a6 :: a7 :: t =>
-    pw_block (r0 + a0) (r1 + a1) (r2 + a2) (r3 + a3) (r4 + a4) (r5 + a5) (r6 + a6) (r7 + a7) t
-  | _ => fold_left PrimFloat.add l (((r0 + r1) + (r2 + r3)) + ((r4 + r5) + (r6 + r7)))
-  end.
-
-Fixpoint pairwise (fuel : nat) (l : list float) : option float :=
-  let n := length l in
-  if (n <? 8)%nat then Some (fold_left PrimFloat.add l 0)
-  else if (n <=? 128)%nat then
-    match l with
-    | a0 :: a1 :: a2 :: a3 :: a4 :: a5 :: a6 :: a7 :: t => Some (pw_block a0 a1 a2 a3 a4 a5 a6 a7 t)
-    | _ => None
-    end
-  else
-    match fuel with
-    | O => None
-    | S f =>
-      let h := (n / 2)%nat in
-      let n2 := (h - h mod 8)%nat in
-      match pairwise f (firstn n2 l), pairwise f (skipn n2 l) with
-      | Some a, Some b => Some (a + b)
-      | _, _ => None
-      end
-    end.
+Definition pw_block : float -> float -> float -> float -> float -> float -> float -> float -> list float -> float :=
+  pw_block_g PrimFloat.add.
+Definition pairwise : nat -> list float -> option float := pairwise_g PrimFloat.add 0.
 
 Definition np_sum (l : list float) : option float :=
   match pairwise 64 l with Some s => Some (0 + s) | None => None end.
@@ -484,6 +494,22 @@ Definition integrate_func2 (x wx y wy : list R) (x1 x2 y1 y2 : R) (f : R -> R ->
   xf1 * yf1 *
   Rsum (flat_map (fun yw => map2 (fun xj wxj => f (xj * xf1 + xf2) (fst yw * yf1 + yf2) * (wxj * snd yw)) x wx)
                  (combine y wy)).
+
+(* ---- the Newton pass of cgauleg_pywrap.c over the reals: the same statements as F.legendre /
+   F.pp_of / F.z_next / F.w_of with exact arithmetic (the loop counter j as a real).  Legendre.v proves
+   that this IS Bonnet's recursion for the Legendre polynomials, that pp is P_n'(z) and hence that the
+   update is Newton's method on P_n. *)
+Fixpoint legendre_R (cnt : nat) (j z p1 p2 : R) : R * R :=
+  match cnt with
+  | O => (p1, p2)
+  | S c => legendre_R c (j + 1) z (((2 * j - 1) * z * p1 - (j - 1) * p2) / j) p1
+  end.
+Definition pp_R (nf z p1 p2 : R) : R := nf * (z * p1 - p2) / (z * z - 1).
+Definition newton_step_R (n : nat) (z : R) : R * R :=        (* (next z, pp) *)
+  let '(p1, p2) := legendre_R n 1 z 1 0 in
+  let pp := pp_R (INR n) z p1 p2 in
+  (z - p1 / pp, pp).
+Definition weight_R (xl z pp : R) : R := 2 * xl / ((1 - z * z) * pp * pp).
 
 (* polynomials as coefficient lists, lowest degree first *)
 Fixpoint peval (p : list R) (x : R) : R :=
